@@ -270,7 +270,7 @@ def convOutStr (m : NLModel) (o : ConvOut) (cfg : Cfg) : String :=
     let rows := o.blocks.flatMap (·.cons) ++ (o.roots.filter (fun r => !(r.lb == some 1 && r.ub == none &&
         (match r.body with | [(_, v)] => o.fixTrue.contains v | _ => false)))).map
           (fun r => Con.linRange r.body r.lb r.ub)
-    s!"conv N={o.N} M={o.M} shortcut={if o.shortcut linear then 1 else 0} infragment={if m.vok && o.checks m && (!linear || o.checksLin cfg) then 1 else 0}" ++
+    s!"conv N={o.N} M={o.M} shortcut={if o.shortcut linear then 1 else 0} infragment={if m.vok && o.checksSem && (!linear || o.checksLin cfg) then 1 else 0} checks={if o.checks m then 1 else 0}" ++
       " |V| " ++ ";".intercalate vs ++
       " |D| " ++ "|".intercalate (o.defs.map defStr) ++
       " |R| " ++ "|".intercalate (o.roots.map rootStr) ++
